@@ -39,6 +39,13 @@ class St:
     def fork(self):
         return St(dict(self.env), list(self.conds), list(self.trace))
 
+    def log(self, t):
+        """Append a call term to the trace, stamped with the number of conditions in force."""
+        if len(t) == 4:
+            t = t + (len(self.conds),)
+        self.trace.append(t)
+        return t
+
     def cond(self, c):
         s = self.fork()
         s.conds.append(c)
@@ -102,6 +109,8 @@ def tshow(t, depth=0):
         return "%s#%s" % (s(t[1]), t[2])
     if k in ("elem", "ok?", "err?", "await"):
         return "%s(%s)" % (k, s(t[1]))
+    if k == "phi":
+        return "phi(%s | %s)" % (s(t[1]), " | ".join(s(x) for x in t[2]))
     return "<%s>" % k
 
 
@@ -259,7 +268,9 @@ class SymX:
                     v = ("ctor", "std::option::Option::None", [])
                 else:
                     v = ("ctor", "std::result::Result::Err", [("call", "<from-err>", [p.ret[1]], node)])
-            s2 = St(dict(s.env), s.conds + p.conds, s.trace + [("call", "<enter>", [("lit", cal)], node)] + p.trace)
+            off = len(s.conds)
+            shifted = [(t[:4] + (t[4] + off,)) if (len(t) > 4 and isinstance(t[4], int)) else t for t in p.trace]
+            s2 = St(dict(s.env), s.conds + p.conds, s.trace + [("call", "<enter>", [("lit", cal)], node, off)] + shifted)
             res.append((s2, v))
         return res
 
@@ -268,7 +279,14 @@ class SymX:
         st = St(env=dict(env or {}))
         for p in (params if params is not None else self.body.get("params", [])):
             self.bind(p, None, st, top=True)
-        outs = self.ev(node if node is not None else self.body["body"], st)
+        root = node if node is not None else self.body["body"]
+        inner = async_inner(root)
+        if inner is not None:
+            # async fn: evaluate the coroutine body; `.await` nodes become ('await', t)
+            for p in inner.get("params", []):
+                self.bind(p, None, st)
+            root = inner["body"]
+        outs = self.ev(root, st)
         for s, v in outs:
             self.done.append(Path(s, "fall", v))
         return self.done
@@ -406,12 +424,12 @@ class SymX:
                         outs.append((s, term))
                     elif name in ("trace", "debug", "info", "warn", "error", "log"):
                         s2 = s.fork()
-                        s2.trace.append(("call", "log::" + name, [term], e))
+                        s2.log(("call", "log::" + name, [term], e))
                         outs.append((s2, ("unit",)))
                     else:
                         s2 = s.fork()
                         t = ("call", "macro::" + (name or "?"), [term], e)
-                        s2.trace.append(t)
+                        s2.log(t)
                         outs.append((s2, t))
                 return outs
         if k == "lit":
@@ -435,6 +453,22 @@ class SymX:
                     fv = None
                     for s1, f in self.ev(e["f"], s):
                         fv = f
+                    if isinstance(fv, tuple) and fv[0] == "closure" and self.depth < 3:
+                        # inline the closure body at its call
+                        sub = SymX(self.body, self.macros, self.inline, self.depth + 1)
+                        st0 = St(env=dict(fv[2]) if len(fv) > 2 else {})
+                        for i, pp in enumerate(fv[1].get("params", [])):
+                            sub.bind(pp, vals[i] if i < len(vals) else None, st0)
+                        c_outs = sub.ev(fv[1]["body"], st0)
+                        off = len(s.conds)
+                        for p in [Path(bs, "fall", bv) for bs, bv in c_outs] + sub.done:
+                            v = p.ret
+                            if p.kind == "try":
+                                v = ("ctor", "std::result::Result::Err", [("call", "<from-err>", [p.ret[1]], e)])
+                            shifted = [(t[:4] + (t[4] + off,)) if (len(t) > 4 and isinstance(t[4], int)) else t for t in p.trace]
+                            s2 = St(dict(s.env), s.conds + p.conds, s.trace + shifted)
+                            outs.append((s2, v))
+                        continue
                     t = ("call", "<indirect>", [fv] + vals, e)
                 else:
                     res = e["f"].get("res", {}) if isinstance(e.get("f"), dict) else {}
@@ -444,7 +478,7 @@ class SymX:
                         continue
                     t = ("call", cal, vals, e)
                 s2 = s.fork()
-                s2.trace.append(t)
+                s2.log(t)
                 outs.append((s2, t))
             return outs
         if k == "mcall":
@@ -457,7 +491,7 @@ class SymX:
                     continue
                 t = ("call", target, vals, e)
                 s2 = s.fork()
-                s2.trace.append(t)
+                s2.log(t)
                 outs.append((s2, t))
             return outs
         if k == "field":
@@ -583,7 +617,7 @@ class SymX:
                 s2 = s.fork()
                 if key is not None:
                     s2.env[key] = v
-                s2.trace.append(("call", "<assign>", [("lit", show(e["l"])), v], e))
+                s2.log(("call", "<assign>", [("lit", show(e["l"])), v], e))
                 outs.append((s2, ("unit",)))
             return outs
         if k == "assignop":
@@ -594,7 +628,7 @@ class SymX:
                 nv = ("bin", e["op"], vals[0], vals[1])
                 if key is not None:
                     s2.env[key] = nv
-                s2.trace.append(("call", "<assignop>", [("lit", show(e["l"])), ("lit", e["op"]), vals[1]], e))
+                s2.log(("call", "<assignop>", [("lit", show(e["l"])), ("lit", e["op"]), vals[1]], e))
                 outs.append((s2, ("unit",)))
             return outs
         if k == "yield":
@@ -679,7 +713,9 @@ class SymX:
                     sp = St(dict(p.env), s.conds + [("if", ("call", "<in-loop>", [itv], e), True)] + p.conds, s.trace + p.trace)
                     self.done.append(Path(sp, p.kind, p.ret))
                 s2 = s.fork()
-                s2.trace.append(("call", "<for>", [itv, ("lit", show(pat))], {"paths": body_paths, "ln": e.get("ln"), "pat": pat}))
+                node = {"paths": body_paths, "ln": e.get("ln"), "pat": pat}
+                s2.log(("call", "<for>", [itv, ("lit", show(pat))], node))
+                self._phi(s2, s.env, body_paths, node)
                 outs.append((s2, ("unit",)))
             return outs
         outs = []
@@ -698,6 +734,18 @@ class SymX:
                 self._guard(len(outs))
         return outs
 
+    def _phi(self, st, entry_env, body_paths, node):
+        """Loop-carried assignments: a variable assigned in the body becomes phi(before, [values after one iteration])."""
+        changed = {}
+        for p in body_paths:
+            if p.kind not in ("fall", "continue"):
+                continue
+            for k, v in p.env.items():
+                if k in entry_env and entry_env[k] is not v:
+                    changed.setdefault(k, []).append(v)
+        for k, news in changed.items():
+            st.env[k] = ("phi", entry_env[k], news, id(node))
+
     def ev_loop(self, e, st):
         sub = self._sub()
         body_outs = sub.ev(e["body"], St(env=dict(st.env)))
@@ -710,13 +758,21 @@ class SymX:
         node = {"paths": paths, "ln": e.get("ln"), "breaks": [Path(bs, "break", bv) for bs, bv in brk]}
         if not brk:
             s2 = st.fork()
-            s2.trace.append(("call", "<loop>", [], node))
+            s2.log(("call", "<loop>", [], node))
             # loop without break: diverges (or returns from inside)
             return []
         for bs, bv in brk:
             s2 = St(dict(bs.env), st.conds + bs.conds, st.trace + [("call", "<loop>", [], node)] + bs.trace)
             outs.append((s2, bv))
         return outs
+
+
+def async_inner(root):
+    """If root is the lowering of an `async fn` body, return the coroutine closure node."""
+    n = unwrap(root)
+    if isinstance(n, dict) and n.get("k") == "closure" and str(n.get("ckind", "")).startswith("coroutine:Desugared(Async"):
+        return n
+    return None
 
 
 def paths_of(body, node=None, inline=None):
@@ -772,3 +828,17 @@ def closure_paths(body, closure_term, arg_terms=None):
         sx.bind(p, (arg_terms[i] if arg_terms and i < len(arg_terms) else None), st)
     outs = sx.ev(node["body"], st)
     return [Path(s, "fall", v) for s, v in outs] + sx.done
+
+
+def all_calls(path, prefix=None):
+    """Every call term on a path, including those inside loop bodies, with the conditions in force."""
+    base = list(prefix or [])
+    for t in path.trace:
+        if not (isinstance(t, tuple) and t[0] == "call"):
+            continue
+        n = t[4] if len(t) > 4 and isinstance(t[4], int) else len(path.conds)
+        conds = base + list(path.conds[:n])
+        yield t, conds
+        if t[1] in ("<for>", "<loop>") and isinstance(t[3], dict):
+            for bp in list(t[3].get("paths", [])) + list(t[3].get("breaks", [])):
+                yield from all_calls(bp, conds)
